@@ -4,7 +4,7 @@ import vlib, histlib
 def run(res, tier, seed, replay):
     res.cov["rule"] = ("real: the random histories of C02; at every operation boundary ALL readable executable mappings of the process (program text, shared libraries; ~2 MB) are compared byte by byte with a copy taken "
                        "before the first lifetime: differences must lie inside the 16-byte entry slots of targets named so far, and vanish after scope exit; the set of flushed (=written) ranges per segment must equal the model's; "
-                       "un-named siblings (other generic instantiation, other functions) are called at every boundary and must return their original values; distinct = distinct (lifetimes, op-kind set, repeated-target flag)")
+                       "un-named siblings (other generic instantiation, other functions, 16-byte-pitch neighbours in synthetic arenas incl. page-straddling targets and targets that are jmp-rel32 forwarding stubs to a neighbour) are called at every boundary and must return their original values; distinct = distinct (lifetimes, op-kind set, repeated-target flag)")
     res.cov["trusted_base"] = vlib.TRUSTED_COMMON + ["harness/real interposers, /proc/self/maps parser and snapshot/diff of executable mappings"]
     res.assumptions = ["writes by ptr::copy_nonoverlapping are observed through memory differences, not intercepted"]
     vlib.proof_stage(res, "C03", thorough=(tier == "thorough"))
@@ -12,3 +12,10 @@ def run(res, tier, seed, replay):
     if not ok: res.broke("extraction of the model failed", out); return
     n = 120 if tier == "quick" else 4000
     histlib.check_histories(res, "c03", n, seed + 3, "ranges", max_lifetimes=3 if tier == "quick" else 6, extra_lines=histlib.CORPUS)
+    # synthetic arenas: functions packed at 16-byte pitch next to the target (also straddling a page), and targets that
+    # are forwarding stubs (jmp rel32 to a neighbour): only the named entry may change, the neighbours keep their bytes and values
+    import arenalib, random
+    rr = random.Random(seed + 33)
+    modes = ["neigh"] * 6 + ["straddle"] * 6 + ["alias"] * 6
+    if tier == "thorough": modes = modes * 20
+    histlib.check_histories(res, "c03", 0, seed + 33, "ranges", extra_lines=[arenalib.gen(rr, f"a{i}", mode=m) for i, m in enumerate(modes)])
